@@ -8,8 +8,9 @@ for l in open('/verif/properties.jsonl'):
         break
 else:
     raise SystemExit('no such property')
-wt = f'/tmp/mut_{pid}'
-out = f'/tmp/mutout_{pid}'
+rnd = sys.argv[2] if len(sys.argv) > 2 else ''
+wt = f'/tmp/mut{rnd}_{pid}'
+out = f'/tmp/mutout{rnd}_{pid}'
 print(f"""You are helping to test a verification framework by playing the role of a developer who introduces a subtle regression.
 
 The code base is the Python library `pexpect` (a pure-Python Expect clone). You have your own scratch git worktree of it at {wt} (detached HEAD). Work ONLY inside {wt} and write your deliverables to {out}. Do NOT read, list or touch /verif or /repo (they are off limits; everything you need is in {wt}). Python to use: /venv/bin/python (3.12, has pytest, ptyprocess). Run things from inside {wt} (e.g. `cd {wt} && /venv/bin/python -m pytest -q -p no:cacheprovider --timeout=900 tests/test_expect.py`); first confirm that `cd {wt} && /venv/bin/python -c "import pexpect; print(pexpect.__file__)"` prints a path under {wt}. Ignore any 'WARNING conda' noise lines.
